@@ -312,6 +312,22 @@ def apply_rules(text, relpath):
     # R7: visibility widening (`pub(crate)` -> `pub`): Verus requires contract expressions of a `pub fn` to be
     # well-formed wherever the fn is visible; in a single-crate image widening changes no behaviour
     text = sub('R7', r'\bpub\(crate\)', 'pub', text)
+    # R8: statement-form output macros are dropped from the image so that the remaining obligations can still be
+    # decided; the C19 frame scan (run.py) reports them from the real source
+    while True:
+        bb, _ = rs.blank(text)
+        m = re.search(r'\b(println|eprintln|print|eprint|dbg)!\s*\(', bb)
+        if not m:
+            break
+        o = m.end() - 1
+        c = rs.match_bracket(bb, o)
+        e = rs.skip_ws(bb, c + 1)
+        if e < len(bb) and bb[e] == ';':
+            text = text[:m.start()] + text[e + 1:]
+            count('R8')
+        else:
+            # expression position: leave it; the front end will reject it (C19 closed world)
+            text = text[:m.start()] + 'vf_output_macro_in_expression_position!(' + text[o + 1:]
     # R1
     text = sub('R1', r'\|_\|', '|_vf|', text)
     # R2
